@@ -9,6 +9,7 @@ import numpy as np
 
 from basictdf.tdfBlock import Block, BlockType, BuildWriteable, Sized
 from basictdf.tdfTypes import SegmentData, TdfType, f32, i32, u16
+from basictdf.tdfUtils import free_channel
 
 PlatDataType = TdfType(
     np.dtype([("application_point", "2<f4"), ("force", "3<f4"), ("torque", "<f4")])
@@ -213,11 +214,7 @@ class ForcePlatformsDataBlock(Block):
         if not isinstance(platform, ForcePlatformData):
             raise ValueError("platform must be a ForcePlatformData instance")
 
-        if channel is None:
-            channel = max(self._plat_map) + 1 if len(self._plat_map) > 0 else 0
-        if channel in self._plat_map:
-            raise ValueError(f"Channel {channel} already in use")
-        self._plat_map.append(channel)
+        self._plat_map.append(free_channel(self._plat_map, u16.btype, channel))
         self._platforms.append(platform)
 
     @property
